@@ -194,6 +194,20 @@ func genNotebook(r *Rng, tier string, idx int, args map[string]string) []string 
 			case len(shadow) > 0 && r.Chance(1, 5):
 				e.Command = shadow[r.Intn(len(shadow))].Command // replace an initial entry
 				where = 1 + r.Intn(2)
+			case len(used) > 0 && r.Chance(1, 6):
+				// differs from an earlier command only in letter case: a DIFFERENT command string
+				// (shell commands are case-sensitive), so it must be appended, not replace that entry
+				base := Pick(r, used)
+				e.Command = strings.ToUpper(base)
+				if e.Command == base {
+					e.Command = strings.ToLower(base)
+				}
+				where = 1 + r.Intn(2)
+			case len(main) > 0 && r.Chance(1, 6):
+				// the user re-saves a stock command with personal notes: the notebook entry must still
+				// follow the main entries in the searched database and be found by its own words
+				e.Command = main[r.Intn(len(main))].Command
+				where = 1 + r.Intn(2)
 			default:
 				e.Command = nbText(r, mk(0))
 			}
